@@ -25,19 +25,88 @@ def run_all(project):
     if key in _cache:
         return _cache[key]
     contracts = C.build_contracts(project)
+    template = contracts.pop("$strategy_template")
     out: Dict[str, tuple] = {}
+    adopted, unadopted = adopt_helpers(project, contracts, template, out)
     for q in FUNCS:
-        res, ans = verify_function(project, q, contracts)
+        try:
+            res, ans = verify_function(project, q, contracts)
+        except AnalysisError:
+            raise
         out[q] = (res, ans)
+    project.gf_adopted, project.gf_unadopted = adopted, unadopted
     _cache.clear()
     _cache[key] = (contracts, out)
     return _cache[key]
 
 
+def adopt_helpers(project, contracts, template, out):
+    """A search helper introduced after the pinned tree (extract-function refactoring of a strategy) that could not be
+    inlined is *offered* the strategies' own contract: if every clause is proved for it, its callers may rely on it
+    (guess and check: nothing is assumed that was not verified); otherwise calls of it stay opaque."""
+    import json
+    import os
+    from sa import verify as V
+    from sa.normalize import BASELINE
+    from sa.resolve import Scope, own_nodes
+    import ast
+    try:
+        with open(BASELINE) as fh:
+            base = set(json.load(fh)["functions"])
+    except OSError:
+        return [], []
+    mod = project.modules.get(C.OPT)
+    V.ADOPTED.clear()
+    adopted, unadopted = [], []
+    if mod is None:
+        return adopted, unadopted
+    called = set()
+    for fi in mod.funcs.values():
+        sc = Scope(project, fi)
+        for n in own_nodes(fi.node):
+            if isinstance(n, ast.Call):
+                q = sc.resolve_call(n)
+                if q and q.startswith(C.OPT + ".") and q not in base and q in project.funcs and q not in project.transparent:
+                    called.add(q)
+    for q in sorted(called):
+        fi = project.funcs[q]
+        params = fi.params()
+        if not {"text_rgb", "bg_rgb", "min_contrast"} <= set(params) or fi.parent is not None:
+            unadopted.append(q)
+            continue
+        contracts[q] = template(q, params)
+        V.ADOPTED.add(q)
+        try:
+            res, ans = verify_function(project, q, contracts)
+        except AnalysisError:
+            res, ans = None, None
+        keep = set()
+        if res:
+            n_posts = len(template(q, params).clauses[0].posts(("ret",), {p: ("param", p) for p in params})) - 0
+            # results come per return statement in the order of the postconditions (chainstep labels are skipped: none here)
+            per_ret = {}
+            for r in res:
+                per_ret.setdefault((r.case, r.node.id), []).append(r)
+            if all(len(v) == n_posts for v in per_ret.values()):
+                keep = {i for i in range(n_posts) if all(v[i].ok for v in per_ret.values())}
+        if keep:
+            # the helper is given exactly the postconditions proved at every one of its returns
+            contracts[q] = template(q, params, keep)
+            adopted.append(q)
+            out[q] = ([r for r in res if r.ok], ans)
+        else:
+            del contracts[q]
+            V.ADOPTED.discard(q)
+            unadopted.append(q)
+    return adopted, unadopted
+
+
 def report(project, chk, tag: str, rule_of, out) -> int:
     """Record every obligation with the given property tag. rule_of(Result) -> rule id."""
     n = 0
-    for q in FUNCS:
+    funcs = list(getattr(project, "gf_adopted", [])) + FUNCS
+    opaque = list(getattr(project, "gf_unadopted", []))
+    for q in funcs:
         res, ans = out[q]
         fi = project.func(q)
         chk.saw_function(fi, ans[0].cfg)
@@ -60,6 +129,9 @@ def report(project, chk, tag: str, rule_of, out) -> int:
                     chk.obligations.append({"rule": rule, "where": f"{loc} {fi.short}", "obligation": text, "discharged": False, "how": msg, "nontrivial": True})
                     continue
                 seen[k] = True
+                if opaque:
+                    raise AnalysisError(f"ANALYSIS-INCONCLUSIVE {loc} {fi.short}: {msg}; the function relies on helper(s) {[o.rsplit('.', 1)[-1] for o in opaque]} introduced after the pinned tree "
+                                        "that could neither be inlined nor verified against the strategies' contract: not judged")
                 chk.fail(rule, fi.short, construct, loc, msg, text=text,
                          extra={"case": r.case, "returned": show(r.ret)[:300],
                                 "facts_available": sorted(show(f)[:200] for f in r.facts.facts)[:40]})
